@@ -300,6 +300,54 @@ def build_Q2(chunk):
     return Q_PRELUDE + '\n'.join(funcs) + '\nempty @is_you(int x) {\n' + '\n'.join(calls) + '\n}\n'
 
 
+
+# ---------------------------------------------------------------------------
+# O: you-functions and defeat functions of different kinds called (hence generated) in every order
+# ---------------------------------------------------------------------------
+
+O_PRELUDE = """
+int g = 5;
+empty !pf(int v) { write('('); preempt { write('!'); return; } write(')'); !truth_is_defeat(v == 1); }
+empty !np(int v) { write('n'); !truth_is_defeat(v == 2); write('N'); }
+int !nv(int v) { write('v'); !truth_is_defeat(v == 0); return v + 1; }
+int pl(int v) { g += 1; return v + g; }
+"""
+O_FUNCS = [
+    ("empty @a(int v) { int[] p = [v, 4]; try { !truth_is_defeat(v == 1); write('A'); } stop { write('a'); } write(p[1]); }", "@a(x);"),
+    ("empty @b(int v) { try { write('B'); !truth_is_defeat(v == 1); write('+'); } undo { write('b'); } }", "@b(x);"),
+    ("empty @c(int v) { int q = v + 7; try { !pf(v); write('C'); } stop { write('c'); } write(q); }", "@c(x);"),
+    ("empty @d(int v) { try { !np(v); write('D'); !pf(v); } undo { write('d'); } }", "@d(x);"),
+    ("int @e(int v) { return pl(v) ?? 8; }", "write(@e(x));"),
+    ("empty @f(int v) { try { write(!nv(v)); !np(v); } stop { write('f'); } try { !np(v + 1); } stop { write('F'); } }", "@f(x);"),
+    ("int @h(int v) { try { return !nv(v) + pl(1); } stop { write('h'); } return 0 - 1; }", "write(@h(x));"),
+    ("empty @i(int v) { for (int k = 0; k < 2; k += 1) { try { !truth_is_defeat(v == k); write('I'); } undo { write('i'); continue; } write(k); } }", "@i(x);"),
+    ("empty @j(int v) { int a[v + 1]; a[v] = 3; try { int b[v + 2]; b[0] = 4; !pf(v); write(b[0]); } stop { write('j'); } write(a[v]); write(a.length); }", "@j(x);"),
+]
+O_ARGVS = [['0'], ['1'], ['2']]
+O_BATCH = 10
+
+
+def family_O(tier):
+    k = 5 if tier == 'thorough' else 3
+    n = len(O_FUNCS)
+    perms = []
+    for combo in itertools.combinations(range(n), k):
+        if tier == 'quick' and sum(combo) % 4 != 1:
+            continue
+        perms.extend(itertools.permutations(combo))
+    if tier == 'thorough':
+        perms = perms[::5]
+    pairs = [(i, j) for i in range(n) for j in range(n) if i != j]
+    perms = pairs + perms
+    return [('O', perms[i:i + O_BATCH]) for i in range(0, len(perms), O_BATCH)]
+
+
+def build_O(order):
+    decls = '\n'.join(O_FUNCS[i][0] for i in sorted(order))
+    calls = " write('|'); ".join(O_FUNCS[i][1] for i in order)
+    again = " write('|'); ".join(O_FUNCS[i][1] for i in order[:2])
+    return O_PRELUDE + decls + f"\nempty @is_you(int x) {{ {calls} write('#'); {again} writeln(g); }}\n"
+
 # ---------------------------------------------------------------------------
 # P: return protection of preemptive defeat functions
 # ---------------------------------------------------------------------------
